@@ -164,7 +164,7 @@ def ack_step(nblk):
 def jobs(tier):
     out = []
     q = tier == "quick"
-    lens = [1, 6, 7, 8, 13, 14, 15, 21, 22, 49, 50] if q else list(range(1, 65)) + [888, 889, 890, 896, 1000]
+    lens = [1, 6, 7, 8, 13, 14, 15, 21, 22, 49, 50] if q else list(range(1, 101)) + [888, 889, 890, 896, 1000, 1778, 1779, 5000]
     blkss = [[127], [1], [2], [3], [7], [2, 3, 1, 5], [1, 127]]
     for n in lens:
         for blks in blkss:
@@ -195,6 +195,13 @@ def jobs(tier):
             out.append(dict(func="download", params=dict(n=n, blks=blks, crc=1, how="buffered", lose=[k],
                                                          final_loss=fin), weight=n))
     if not q:
+        for n in (1, 7, 8, 14, 15, 22, 29, 35):
+            for crc in (1, 0):
+                out.append(dict(func="download", params=dict(n=n, blks=["sym"], crc=crc, how="buffered"), weight=4 ** (n // 7 + 1)))
+        for n in (15, 22, 29):
+            for k in range(-(-n // 7) - 1):
+                out.append(dict(func="download", params=dict(n=n, blks=["sym"], crc=1, how="buffered", lose=[k],
+                                                             final_loss=True), weight=4 ** (n // 7 + 1)))
         for lose in ([0, 1], [1, 3], [2, 6], [0, 7]):
             out.append(dict(func="download", params=dict(n=70, blks=[4], crc=1, how="buffered", lose=lose,
                                                          final_loss=True), weight=70))
@@ -215,9 +222,10 @@ META = dict(
     bounds=dict(quick="payload lengths 1,6,7,8,13,14,15,21,22,49,50; block-size sequences [127],[1],[2],[3],[7],[2,3,1,5],"
                       "[1,127]; CRC on/off; buffered and raw writing; every single lost segment for 4 (length, block "
                       "sizes) scenarios",
-                thorough="every length 1..64, 888..890, 896, 1000; 7 loss scenarios incl. 889 bytes / block size 127; "
-                         "4 double-loss patterns"),
-    outside_bounds=["size not declared (block download without size indication)", "symbolic block-size sequences",
+                thorough="every length 1..100, 888..890, 896, 1000, 1778, 1779, 5000; 7 loss scenarios incl. 889 bytes / "
+                         "block size 127; 4 double-loss patterns; block size chosen symbolically per sub-block among "
+                         "{1,2,3,127} for lengths up to 35 bytes (with and without a single loss)"),
+    outside_bounds=["size not declared (block download without size indication)", "arbitrary block-size sequences beyond the listed ones",
                     "payloads beyond 1000 bytes", "loss of acknowledgements (server->client frames)"],
     assumptions=["a lost final segment of a sub-block makes the server wait (no acknowledge) and the client time out"],
     stubs=["struct", "binascii.crc_hqx (z3 model)", "queue", "time", "io model", "logging"],
